@@ -39,6 +39,10 @@ case "$cmd" in
     dir="$VERIF/.build/$id-$tier-$$"
     trap 'rm -rf "$dir"' EXIT
     build "$dir" "$variant" || exit 2
+    if [ "$id" = C15 ]; then
+      # freed objects are overwritten, so a dangling zero-copy string shows up as a changed value
+      export GODEBUG=clobberfree=1,invalidptr=1
+    fi
     if [ "$id" = C19 ]; then
       build "$dir/race" race || exit 2
       export MC_RACE_BIN="$dir/race/mc"
